@@ -341,7 +341,13 @@ def oracle_c04(d, case):
     if overrun:
         counters["runs_with_overrun_skipped_for_overlap"] += 1
     for (cls, scope), units in groups.items():
-        limit = max(max(1, int(numeric(u.get("max_concurrent_tries"), budget_of(u, replay)))) for u in units)
+        # the configured limit: the traversal itself raises the parameter on a node when it gives up waiting (its escape
+        # hatch for hanging workers), so the value seen at execution time is not the one the user set
+        configured = case.get("params", {}).get("max_concurrent_tries")
+        if configured is not None:
+            limit = max(1, int(numeric(configured, 1)))
+        else:
+            limit = max(max(1, int(budget_of(u, replay))) for u in units)
         points = []
         for unit in units:
             points.append((unit["s0"], 1, unit))
@@ -413,7 +419,7 @@ def oracle_c05(d, case):
                     uses_copy = e["w"] == owner or (event["loc"] in r["locs"] and location_scope_of(event["loc"], e["w"], d) in r["pool_scope"])
                     running = e["s0"] < event["seq"] and (e["s1"] is None or e["s1"] > event["seq"])
                     pending = e["s0"] > event["seq"]
-                    if running and e["w"] != owner:
+                    if running and e["w"] != owner and not uses_copy:
                         # a test of another worker fetched its copy when it started: it is done with this one
                         counters["removals_during_foreign_run_after_fetch"] += 1
                         continue
@@ -611,6 +617,11 @@ def oracle_c10(d, case):
                 missing_state_rerun = stateful and all(r.get("status") for r in previous) and any(
                     cls_matches(r.get("name", ""), unit["cls"]) for r in previous) and len(history) == len(
                     [r for r in previous if cls_matches(r.get("name", ""), unit["cls"]) and in_scope(r.get("name", ""), scope, d)])
+                if not missing_state_rerun and stateful and previous:
+                    # replay: executions of this run may be in flight too; what matters is that a produced state is missing
+                    # where the examining worker looks for it (its own and the shared pool, as in C03)
+                    missing_state_rerun = any(not present_anywhere(d, (entry["obj"], entry["state"]), unit["s0"], unit["w"])
+                                              for entry in unit.get("sets", []))
                 if missing_state_rerun:
                     counters["replayed_setup_rerun_for_missing_state"] += 1
                     continue
@@ -624,12 +635,43 @@ def oracle_c10(d, case):
             groups[(unit["cls"], unit["scope"] if stateful else ("run",))].append(unit)
         for (cls, scope), units in groups.items():
             statuses = [u["status"].lower() for u in units if u["status"]]
+            # results of a replayed job count as tries already made
+            statuses += [r.get("status", "").lower() for r in previous if cls_matches(r.get("name", ""), cls) and in_scope(r.get("name", ""), scope, d)]
             max_tries = max(int(numeric(u.get("max_tries"), 2 if replay else 1)) for u in units)
             counters["quiescence_groups_checked"] += 1
             reported = all(u["reported"] for u in units)
             if reported and len(statuses) < max_tries and set(statuses) <= set(rerun) and not (set(statuses) & set(stop)) and max_tries > 1:
                 findings.append(("retries were due but the test was not executed again",
                                  f"{cls} scope {scope}: statuses {statuses} max_tries {max_tries} rerun {rerun} stop {stop}"))
+    # replay: a selected test without an acceptable previous result is executed again, one with an acceptable result is not
+    if replay and not d.outcome["exception"] and not d.outcome["worker_errors"]:
+        executed_classes = {u["cls"] for u in d.units}
+        audited = set()
+        for node in d.nodes:
+            if node["flat"] or node["clone_source"] or node["shared_root"] or node.get("object_root") or node.get("sets"):
+                continue
+            cls = node["cls"]
+            if cls in audited or cls.startswith("internal.") or cls.startswith("original."):
+                continue
+            audited.add(cls)
+            history = [r.get("status", "").lower() for r in previous if cls_matches(r.get("name", ""), cls)]
+            if not history:
+                continue
+            counters["replayed_classes_audited"] += 1
+            max_tries = int(numeric(node.get("max_tries"), 2))
+            due = len(history) < max_tries and set(history) <= set(rerun) and not (set(history) & set(stop))
+            acceptable = any(ACCEPTABLE.get(h.upper(), False) for h in history)
+            if cls in executed_classes:
+                counters["replayed_classes_executed_again"] += 1
+                continue
+            counters["replayed_classes_not_executed_again"] += 1
+            if due:
+                findings.append(("replayed test with tries left and only rerun-worthy previous results was not executed again",
+                                 f"{cls}: previous {history} max_tries {max_tries} rerun {rerun} stop {stop}"))
+            elif not acceptable:
+                # e.g. a previously INTERRUPTED test under the default replay rerun set (fail, error, warn): the exact retry rule
+                # (first sentence of the property) says it is not run again, the replay sentence says it is; not judged (DESIGN 9.5)
+                counters["replayed_unacceptable_outside_rerun_set_not_judged"] += 1
     # each execution reads its own result
     by_name = collections.defaultdict(list)
     for entry in d.execs:
@@ -640,11 +682,12 @@ def oracle_c10(d, case):
     for node in d.nodes:
         if node["flat"] or node["clone_source"]:
             continue
-        recorded_by_name[node["name"]] += [s for s, n in zip(node["results"], node.get("result_names", [])) if n == node["name"]]
+        recorded_by_name[node["name"]] += [s for s, n, old in zip(node["results"], node.get("result_names", []),
+                                                                 node.get("result_previous") or [False] * len(node["results"]))
+                                           if n == node["name"] and not old]
     for name, own in by_name.items():
         recorded = recorded_by_name.get(name, [])
-        n_previous = len([r for r in previous if r.get("name") == name])
-        recorded_now = [s for s in recorded[n_previous:] if s != "UNKNOWN"]
+        recorded_now = [s for s in recorded if s != "UNKNOWN"]
         counters["result_sequences_compared"] += 1
         if sorted(recorded_now) != sorted(own):
             findings.append(("a repeated execution did not read its own result",
@@ -666,6 +709,22 @@ def oracle_c10(d, case):
             findings.append(("run reported successful although an executed test has no acceptable result (result never reported)",
                              f"{[n[-60:] for n in names_without[:3]]}"))
     return findings, counters
+
+
+def present_anywhere(d, key, seq, worker=None):
+    """Whether a state was in the worker's own or the shared pool (any pool without a worker) just before event number seq."""
+    locations = {loc for loc, entries in d.phase["store_before"]["states"].items() if list(key) in [list(e) for e in entries]}
+    for event in d.events:
+        if event["seq"] >= seq:
+            break
+        if event["k"] == "store" and (event.get("obj"), event.get("state")) == tuple(key):
+            if event["op"] == "add":
+                locations.add(event["loc"])
+            elif event["op"] == "remove":
+                locations.discard(event["loc"])
+    if worker is not None:
+        locations = {loc for loc in locations if loc.startswith(":") or loc.split(":", 1)[0] == worker}
+    return bool(locations)
 
 
 def in_scope(name, scope, d):
